@@ -388,3 +388,29 @@ func (c *Ctx) instanceMethods(name string) []*ssa.Function {
 	}
 	return c.instIdx[name]
 }
+
+// borrow runs another property's rule set in a sub-context and imports the obligations whose rule passes keep
+// (nil = all) under the name prefix+rule. Used where one structural condition is a necessary condition of two
+// properties (e.g. "the SNP validator is registered as required" for C01 and C02): a change that breaks it is
+// reported by either check. The imported obligations carry this property's id; floors are not imported.
+func (c *Ctx) borrow(prefix string, run func(*Ctx), keep func(rule, construct string) bool) int {
+	sub := *c
+	sub.S = report.NewSet(c.S.Property)
+	run(&sub)
+	n := 0
+	for _, o := range sub.S.Obs {
+		if strings.HasPrefix(o.Construct, "floor:") && o.Status == report.Discharged {
+			continue
+		}
+		if keep != nil && !keep(o.Rule, o.Construct) {
+			continue
+		}
+		o.Rule = prefix + o.Rule
+		c.S.Obs = append(c.S.Obs, o)
+		n++
+	}
+	for k, v := range sub.S.Counters {
+		c.S.Counters[k] += v
+	}
+	return n
+}
